@@ -1,2 +1,101 @@
-(* props/C04.v — placeholder; filled below in this session. *)
-From Prophy Require Import Bytes Schema Layout Wire PcModel.
+(* props/C04.v — prophyc's computed layout equals the wire rules and both runtimes' statics. *)
+From Coq Require Import ZArith List Bool Lia.
+From Prophy Require Import Bytes Schema Layout Wire Src PyStatics PyEncode PcModel
+  Arith SpecAlign Views SpecLen PyStaticsFacts PyEncodeFacts PcFacts.
+Import ListNotations.
+Local Open Scope Z_scope.
+
+(* prophyc (model of prophyc/model.py evaluate_sizes / calc_wire_stiffness): size, alignment and
+   stiffness of every legal type are what the documented rules imply *)
+Theorem C04_prophyc_layout :
+  forall t, legal t = true ->
+    pc_size t = size t /\ pc_align t = align t /\ pc_kind t = stiff_code (stiffness t).
+Proof.
+  intros t Hl. destruct (pc_layout_eq t Hl) as [Ha Hs]. repeat split; [exact Hs|exact Ha|apply pc_kind_eq; exact Hl].
+Qed.
+Print Assumptions C04_prophyc_layout.
+
+(* the Python runtime (model of the metaclasses' attribute computation) derives the same *)
+Theorem C04_python_statics :
+  forall t,
+    py_align t = align t /\
+    py_dynamic t = negb (is_fixed t) /\
+    py_unlimited t = stiff_eqb (stiffness t) Unlimited /\
+    (legal t = true -> is_fixed t = true -> py_sizeof t = size t).
+Proof.
+  intros t. repeat split; [apply py_align_eq|apply py_dynamic_eq|apply py_unlimited_eq|apply py_sizeof_eq].
+Qed.
+Print Assumptions C04_python_statics.
+
+(* hence prophyc and the generated Python class agree on every fixed type *)
+Corollary C04_prophyc_python_agree :
+  forall t, legal t = true -> is_fixed t = true ->
+    pc_size t = py_sizeof t /\ pc_align t = py_align t.
+Proof.
+  intros t Hl Hf. destruct (pc_layout_eq t Hl) as [Ha Hs].
+  rewrite Ha, Hs, py_align_eq, (py_sizeof_eq t Hl Hf). split; reflexivity.
+Qed.
+Print Assumptions C04_prophyc_python_agree.
+
+(* every encoding of a fixed type has exactly that length *)
+Theorem C04_fixed_length :
+  forall e fs v, legal (TStruct fs) = true -> wt (TStruct fs) v = true -> is_fixed (TStruct fs) = true ->
+    exists b, py_enc e (TStruct fs) v = Ok b /\ len b = pc_size (TStruct fs).
+Proof.
+  intros e fs v Hl Hw Hf. destruct (py_encode_length_fixed e (TStruct fs) v eq_refl Hl Hw Hf) as [b [E L]].
+  exists b. split; [exact E|]. destruct (pc_layout_eq _ Hl) as [_ Hs]. rewrite Hs, <- (py_sizeof_eq _ Hl Hf). exact L.
+Qed.
+Print Assumptions C04_fixed_length.
+
+(* no type containing a dynamic or greedy part is classified as a lesser stiffness *)
+Section Has.
+  Variable hasT : ty -> bool.
+  Definition has_greedy_f (f : field) : bool :=
+    match fst f with FGreedy => true | FPlain => hasT (snd f) | _ => false end.
+  Definition has_dynamic_f (f : field) : bool :=
+    match fst f with FGreedy | FBound _ => true | FPlain => hasT (snd f) | _ => false end.
+End Has.
+Fixpoint has_greedy (t : ty) : bool :=
+  match t with TStruct fs => existsb (has_greedy_f has_greedy) fs | _ => false end.
+Fixpoint has_dynamic (t : ty) : bool :=
+  match t with TStruct fs => existsb (has_dynamic_f has_dynamic) fs | _ => false end.
+
+Lemma has_greedy_unlimited t : has_greedy t = true -> stiffness t = Unlimited.
+Proof.
+  induction t as [k| |vals|fs IH|arms IH] using ty_ind'; try discriminate.
+  cbn [has_greedy stiffness]. induction IH as [|f r Hf Hr IHr]; [discriminate|].
+  cbn [existsb stiff_fields fold_right]. intros H. apply orb_prop in H. destruct H as [H|H].
+  - unfold has_greedy_f in H. unfold fstiff. destruct (fst f); try discriminate.
+    + rewrite (Hf H). reflexivity.
+    + reflexivity.
+  - specialize (IHr H). unfold stiff_fields in IHr. rewrite IHr. destruct (fstiff stiffness f); reflexivity.
+Qed.
+
+Lemma has_dynamic_not_fixed t : has_dynamic t = true -> stiffness t <> Fixed.
+Proof.
+  induction t as [k| |vals|fs IH|arms IH] using ty_ind'; try discriminate.
+  cbn [has_dynamic stiffness]. induction IH as [|f r Hf Hr IHr]; [discriminate|].
+  cbn [existsb stiff_fields fold_right]. intros H Hc. apply stiff_max_fixed in Hc. destruct Hc as [Hc1 Hc2].
+  apply orb_prop in H. destruct H as [H|H].
+  - unfold has_dynamic_f in H. unfold fstiff in Hc1. destruct (fst f); try discriminate.
+    exact (Hf H Hc1).
+  - exact (IHr H Hc2).
+Qed.
+
+Theorem C04_stiffness_never_lesser :
+  forall t, legal t = true ->
+    (has_greedy t = true -> pc_kind t = K_UNLIMITED) /\
+    (has_dynamic t = true -> pc_kind t <> K_FIXED).
+Proof.
+  intros t Hl. rewrite (pc_kind_eq t Hl). split; intros H.
+  - rewrite (has_greedy_unlimited t H). reflexivity.
+  - pose proof (has_dynamic_not_fixed t H) as Hn. destruct (stiffness t); cbn; unfold K_FIXED; congruence.
+Qed.
+Print Assumptions C04_stiffness_never_lesser.
+
+Definition ex_dyn_unl : ty :=
+  TStruct [(FPlain, TScalar U32); (FBound 0%nat, TScalar U8);
+           (FPlain, TStruct [(FPlain, TScalar U8); (FGreedy, TScalar U32)])].
+Example C04_hypotheses_inhabited :
+  legal ex_dyn_unl = true /\ has_greedy ex_dyn_unl = true /\ pc_kind ex_dyn_unl = 2 /\ pc_size ex_dyn_unl = 8.
+Proof. vm_compute. repeat split; reflexivity. Qed.
